@@ -1,0 +1,71 @@
+//go:build verif
+// +build verif
+
+package raczlib
+
+// Exports for the /verif C13 correspondence check (lib/internal/racdict's
+// Saver / Loader and this package's refine vs. the Lean model
+// Model/Rac/Dict.lean). The harness lives in another module and cannot import
+// an internal package, so racdict is reached through here. Compiled only with
+// the "verif" build tag; nothing here changes the package's behaviour.
+
+import (
+	"io"
+
+	"github.com/google/wuffs/lib/internal/racdict"
+	"github.com/google/wuffs/lib/rac"
+)
+
+// VerifRefine is refine.
+func VerifRefine(b []byte) []byte { return refine(b) }
+
+// VerifCompress is (*CodecWriter).compress: one Zlib stream of p+q against the
+// given preset dictionary (none if empty).
+func (w *CodecWriter) VerifCompress(p []byte, q []byte, dict []byte) ([]byte, error) {
+	return w.compress(p, q, dict)
+}
+
+// VerifSaverCompress calls racdict.Saver.Compress with the caller's compress
+// and refine functions.
+func VerifSaverCompress(
+	s *racdict.Saver,
+	p []byte,
+	q []byte,
+	resourcesData [][]byte,
+	compress func(p []byte, q []byte, dict []byte) ([]byte, error),
+	refineResourceData func([]byte) []byte,
+) (rac.Codec, []byte, int, int, error) {
+	return s.Compress(p, q, resourcesData, rac.CodecZlib, compress, refineResourceData)
+}
+
+// VerifNewSaver returns a fresh racdict.Saver.
+func VerifNewSaver() *racdict.Saver { return &racdict.Saver{} }
+
+// VerifSaverWrapResource calls racdict.Saver.WrapResource.
+func VerifSaverWrapResource(s *racdict.Saver, raw []byte, refineResourceData func([]byte) []byte) ([]byte, error) {
+	return s.WrapResource(raw, refineResourceData)
+}
+
+// VerifNewLoader returns a fresh racdict.Loader.
+func VerifNewLoader() *racdict.Loader { return &racdict.Loader{} }
+
+// VerifLoaderLoad calls racdict.Loader.Load.
+func VerifLoaderLoad(l *racdict.Loader, rs io.ReadSeeker, chunk rac.Chunk) ([]byte, error) {
+	return l.Load(rs, chunk)
+}
+
+// VerifDictErrWord names racdict's error values ("" for anything else). They
+// are unexported; a Load of an empty 8-byte range with a wrong TTag, and a
+// WrapResource whose refine step returns too much, produce them.
+func VerifDictErrWord(err error) string {
+	if err == nil {
+		return "nil"
+	}
+	switch err.Error() {
+	case "racdict: dictionary is too long":
+		return "dictionary-too-long"
+	case "racdict: invalid dictionary":
+		return "invalid-dictionary"
+	}
+	return ""
+}
